@@ -4,7 +4,7 @@ from props import c06
 
 
 def knobs(r, i):
-    return {"ops": 30 + r.below(100), "multi": True, "cycle_density": i % 3, "threads": 1 + i % 2, "open_at_close": i % 2 == 1}
+    return {"ops": 30 + r.below(100), "multi": True, "cycle_density": i % 3, "threads": 1 + i % 2, "open_at_close": i % 2 == 1, "orphans": i % 3 != 0}
 
 
 D10_PUSHED = """0 spawn
@@ -24,9 +24,36 @@ D10_PUSHED = """0 spawn
 0 stats""".split("\n")
 
 
+ORPHANS = """0 spawn
+0 setReporter 0
+0 collectorStart
+0 lAddEvent 6531 6b=76
+0 lAddProps 0:6b32=7632
+0 collect x1
+0 collectorStart
+0 lAddEvent 6532 none
+0 localEnter 6c31
+0 close
+0 collect x2
+0 root a 7261 1 0 1
+0 root b 7262 2 0 1
+0 child1 c 63 b
+0 pushChild a x1
+0 pushChild c x1
+0 pushChild a x2
+0 drop c
+0 drop b
+0 drop a
+0 cycle
+0 stats""".split("\n")
+
+
 def extra(r):
     # the open finding D10 seen from C17: one captured set pushed to two parents of the same trace
-    return [("kf/D10-pushed-twice-into-one-trace", D10_PUSHED, ["no_panic", "copies"])]
+    return [("kf/D10-pushed-twice-into-one-trace", D10_PUSHED, ["no_panic", "copies"]),
+            # a captured set that holds only events / properties recorded with no local span open (and one that also
+            # holds a span): they attach to every span the set is pushed to
+            ("orphans/span-less-set", ORPHANS, ["no_panic", "attachments", "tree", "exactly_once"])]
 
 
 def run(v, tier, seed, replay):
